@@ -153,6 +153,8 @@ def check(ctx):
     run.check(ok, 'R23', ce.where, ce.qualname, 'extra = {k: finaliser_of(fields[k])(v) for k, v in db.get(key) if k in fields}',
               'the joined values are not the finalised aggregates of the fields requested')
 
+    from rules import independence
+    independence.r28_functions(ctx, [(J + ':join_aux.indexer', {}), (J + ':join_aux.process_target', {})])
     run.rule('AGG', 'AGGREGATOR-TABLE: the twelve documented aggregates exist with (func, finaliser, dataType, copyProperties) and their '
                     'fold / finaliser have the documented shape (max calls max, min calls min, sum adds, count adds one, first keeps '
                     'the accumulator, last/any take the new value, set/array/counters collect)')
